@@ -241,6 +241,10 @@ pub fn expected_markers(p: &Program) -> Vec<(u32, String)> {
         }
     };
     for (k, a) in &p.contract.msg_attrs {
+        // `reply` is an accepted kind without a message type: an attribute forwarded to it lands nowhere
+        if *k == Kind::Reply {
+            continue;
+        }
         if let MsgAttr::Marker(n) | MsgAttr::DeriveMarker(n) = a {
             out.push((*n, format!("mod sv::type {}", ty_name(0, *k))));
         }
@@ -339,6 +343,9 @@ fn densify_markers(p: &mut Program) {
     p.contract.msg_attrs.push((a, MsgAttr::DeriveMarker(mk())));
     p.contract.msg_attrs.push((b, MsgAttr::DeriveMarker(mk())));
     p.contract.msg_attrs.push((kinds[(p.contract.methods.len() + 2) % kinds.len()], MsgAttr::DeriveMarker(mk())));
+    // forwarded to `reply` (no generated message type): must not show up anywhere
+    p.contract.msg_attrs.push((Kind::Reply, MsgAttr::Marker(mk())));
+    p.contract.msg_attrs.push((Kind::Reply, MsgAttr::DeriveMarker(mk())));
     for i in p.interfaces.iter_mut() {
         let k = Kind::ENUMS[i.methods.len() % 3];
         i.msg_attrs.push((k, MsgAttr::Marker(mk())));
